@@ -35,6 +35,10 @@ GInit ==
 \* (the harness replays the lookup family under both).
 IdRenderings == <<"small", "wide">>
 IdRendering == IdRenderings[((Len(added) + Len(hist) + start) % 2) + 1]
+\* How the sessions of a behaviour are started: through the factory methods (create / open / append) or through the
+\* public constructor with the mode given as FileMode member or as its plain string value; one form per behaviour
+EntryForms == <<"factory", "constructor", "constructor_str">>
+EntryForm == EntryForms[((Len(added) + 2 * Len(hist) + start) % 3) + 1]
 Rec == [ev |-> last', n |-> Len(added'), ix |-> indexable']
 GNext == Next /\ hist' = Append(hist, Rec) /\ UNCHANGED start
 GSpec == GInit /\ [][GNext]_gvars
@@ -109,10 +113,10 @@ FamNext == IF Len(hist) < Len(Prologue(start)) THEN Do(Prologue(start)[Len(hist)
 FNext == FamNext /\ hist' = Append(hist, Rec) /\ UNCHANGED start
 FSpec == GInit /\ [][FNext]_gvars
 FEmit == IF Len(hist) < Len(Prologue(start)) + D THEN TRUE
-         ELSE PrintT("@@" \o ToJson([h |-> hist, start |-> Base(start), flavour |-> Flavour(start), idr |-> IdRendering, added |-> added, disk |-> disk,
+         ELSE PrintT("@@" \o ToJson([h |-> hist, start |-> Base(start), flavour |-> Flavour(start), idr |-> IdRendering, entry |-> EntryForm, added |-> added, disk |-> disk,
                                       open |-> (mode # "closed"), exists |-> exists])) /\ FALSE
 
-Out == [h |-> hist, start |-> start, flavour |-> Flavour(start), idr |-> IdRendering, added |-> added, disk |-> disk, open |-> (mode # "closed"), exists |-> exists]
+Out == [h |-> hist, start |-> start, flavour |-> Flavour(start), idr |-> IdRendering, entry |-> EntryForm, added |-> added, disk |-> disk, open |-> (mode # "closed"), exists |-> exists]
 Emit == IF Len(hist) < D THEN TRUE
         ELSE PrintT("@@" \o ToJson(Out)) /\ FALSE
 =============================================================================
